@@ -9,12 +9,17 @@ From Coq Require Import List Arith Bool.
 From Pymoto Require Import Base.Num.
 Import ListNotations.
 
-(* a reference to data: a Signal, or a SignalSlice (base signal, selected flat positions) *)
+(* a reference to data: a Signal, or a SignalSlice (base signal, selected flat positions).
+   Chains of slices x[i1][i2]... are normalised to the base signal and the composed position list:
+   RSlice when every inner level is a numpy view (basic slice), so that writes reach the base array;
+   RLost  when some inner level is a copying (integer/boolean array) index: reads work, but the setter
+          `self.base.sensitivity[self.slice] = new_sens` then writes into a temporary copy. *)
 Inductive ref : Type :=
 | RSig (s : nat)
-| RSlice (s : nat) (idx : list nat).
+| RSlice (s : nat) (idx : list nat)
+| RLost (s : nat) (idx : list nat).
 
-Definition ref_sig (r : ref) : nat := match r with RSig s => s | RSlice s _ => s end.
+Definition ref_sig (r : ref) : nat := match r with RSig s => s | RSlice s _ => s | RLost s _ => s end.
 
 Definition upd {A} (e : nat -> A) (s : nat) (v : A) : nat -> A :=
   fun s' => if Nat.eqb s' s then v else e s'.
@@ -58,7 +63,7 @@ Section NetModel.
 
   (* ---- Module.response *)
   Definition read_t (t : tenv) (r : ref) : vec :=
-    match r with RSig s => t s | RSlice s idx => gather idx (t s) end.
+    match r with RSig s => t s | RSlice s idx => gather idx (t s) | RLost s idx => gather idx (t s) end.
 
   (* for i, val in enumerate(state_out): self.sig_out[i].state = val *)
   Fixpoint write_outs (outs : list nat) (ys : list vec) (t : tenv) : tenv :=
@@ -92,6 +97,10 @@ Section NetModel.
                     | Some g => g
                     end in
         upd c s (Some (slice_add idx d base))
+      | RLost s idx =>
+        (* the base sensitivity is allocated, the addition itself lands in a temporary *)
+        let base := match c s with None => vzero (dims s) | Some g => g end in
+        upd c s (Some base)
       end
     end.
 
@@ -166,6 +175,11 @@ Section NetModel.
   Definition sumodot (gs : list (option vec)) (xs : list vec) : K :=
     nsum (map (fun p => odot (fst p) (snd p)) (combine gs xs)).
 
+  (* unit tangent: entry k of source s is one, everything else zero; component k of a sensitivity *)
+  Definition unit_tan (dims : nat -> nat) (s k : nat) : tenv :=
+    fun s' => if Nat.eqb s' s then set_at k none_ (vzero (dims s)) else vzero (dims s').
+  Definition onth (k : nat) (o : option vec) : K := match o with None => nzero | Some g => nth k g nzero end.
+
   (* ---- wiring discipline ("acyclic wiring") *)
   Definition written (mods : list module) : list nat := flat_map m_outs mods.
   Definition ins_sigs (m : module) : list nat := map ref_sig (m_ins m).
@@ -191,12 +205,13 @@ Section NetModel.
 
   (* ---- shapes *)
   Definition ref_dim (dims : nat -> nat) (r : ref) : nat :=
-    match r with RSig s => dims s | RSlice _ idx => length idx end.
+    match r with RSig s => dims s | RSlice _ idx => length idx | RLost _ idx => length idx end.
   (* a slice selects pairwise different positions inside the base *)
   Definition wt_ref (dims : nat -> nat) (r : ref) : bool :=
     match r with
     | RSig _ => true
     | RSlice s idx => nodupb idx && forallb (fun i => Nat.ltb i (dims s)) idx
+    | RLost _ _ => false
     end.
   Definition shapes (xs : list vec) (ds : list nat) : Prop := map (@length K) xs = ds.
   Definition oshapes (gs : list (option vec)) (ds : list nat) : Prop :=
